@@ -139,9 +139,10 @@ func liveAppends(pa *provAnalysis, fr *Frame) []provSet {
 }
 
 func checkC08(c *Ctx, r *Report) {
-	r.Rules = []string{"R-conffiles (deb, ipk)", "R-backup (archlinux)", "R-rpmflag", "R-ghost-mode", "R-deb-skips-ghost", "F11 glob expansion keeps the declared type", "cross-check of rpmpack flag constants (thorough)", "R-rpm-only rpm-only entry types planned for rpm only", "R-rpmflag-field every rpm file record's Type is set from its own FileType value", "R-prepared contents are read from the prepared Info only"}
+	r.Rules = []string{"R-conffiles (deb, ipk)", "R-backup (archlinux)", "R-rpmflag", "R-ghost-mode", "R-deb-skips-ghost", "F11 glob expansion keeps the declared type", "cross-check of rpmpack flag constants (thorough)", "R-rpm-only rpm-only entry types planned for rpm only", "R-rpmflag-field every rpm file record's Type is set from its own FileType value", "R-prepared contents are read from the prepared Info only", "R-type-stable an entry's type is assigned only on entries the assigning function has just created"}
 	r.Explanation = "Exhaustive decision of the (prepared entry type x packager) registration matrix by abstract evaluation over go/ssa: for every prepared type the deb and ipk conffiles builders and the archlinux backup loop are evaluated with the entry's type fixed, and registration (an append of the absolute destination / a 'backup' key-value write of the relative destination) must be live exactly for config, config|noreplace and config|missingok; the rpm payload writer is evaluated likewise and the set of rpmpack file-type constants that can reach the file constructor must be exactly the RPMFILE_* value the statement names for that type; the ghost default mode 0644 is stored iff the mode is 0; deb skips ghost entries; glob expansion copies the declaring entry's type. Together with the relevance table of C05 (types that never reach a format) this covers every cell; nothing is executed."
 	r.Explanation += " (R-rpmflag-field) every rpm file record's Type field is stored from a FileType value of its own construction on every path. (R-prepared) after Package has handed an Info to nfpm.PrepareForPackager, every function that reads .Contents reads it from that same Info (followed through parameters, captured variables and identity-returning helpers)."
+	r.Explanation += " (R-type-stable) every store to a Content's Type field targets an allocation of the storing function or the result of a function that returns only fresh allocations."
 	r.Assumptions = []string{
 		"rpmpack's FileType constants carry the RPMFILE_* values (checked against the constants' values as compiled; rpmpack's use of them is the dependency's)",
 		"what a glob matches on disk is not analysed",
@@ -249,6 +250,7 @@ func checkC08(c *Ctx, r *Report) {
 	}
 
 	checkPreparedInfo(c, r)
+	checkTypeStable(c, r)
 
 	// ---- rpm flags ----
 	if pk := c.PackagerByFormat("rpm"); pk != nil {
@@ -906,4 +908,47 @@ func chaseCell(v ssa.Value, d int) ssa.Value {
 		}
 	}
 	return v
+}
+
+// checkTypeStable (R-type-stable): the declared type of an entry is what every
+// packager's typing decision reads, and one configuration's entries are shared
+// by the Infos of all formats. A type is therefore only ever assigned on an
+// entry the assigning function has just created (the planner's copies, the
+// entries it synthesises for trees, globs and parents); no code rewrites the
+// type of an entry it was given.
+func checkTypeStable(c *Ctx, r *Report) {
+	n := 0
+	for _, fn := range c.ModFuncs {
+		if strings.HasPrefix(c.funcPkgPath(fn), modPath+"/internal/cmd") {
+			continue
+		}
+		k := 0
+		forEachInstr(fn, func(in ssa.Instruction) {
+			st, ok := in.(*ssa.Store)
+			if !ok {
+				return
+			}
+			fa, ok := st.Addr.(*ssa.FieldAddr)
+			if !ok || !isContentPtr(fa.X.Type()) || fieldName(fa.X.Type(), fa.Field) != "Type" {
+				return
+			}
+			n++
+			k++
+			obj := fa.X
+			fresh := freshPointer(c, obj)
+			if !fresh {
+				// a local cell holding a fresh pointer
+				if ld, isLd := obj.(*ssa.UnOp); isLd && ld.Op == token.MUL {
+					if al, isAl := ld.X.(*ssa.Alloc); isAl {
+						if sa := singleAssignment(al); sa != nil && freshPointer(c, sa.Val) {
+							fresh = true
+						}
+					}
+				}
+			}
+			r.Check(fresh, "R-type-stable", fmt.Sprintf("type assignment#%d in %s", k, c.funcKey(fn)), c.instrPos(st),
+				"the entry whose type is assigned here is "+shorten(valueExpr(c, obj, 0), 60)+", not one this function has just created: the declared type of a configured entry would change for every format packaged from the same configuration afterwards")
+		})
+	}
+	r.Floor("R-type-stable", n, 4)
 }
